@@ -33,6 +33,7 @@ unconditionally. Fourth round: C11.5 the stored listing is not modified while
 restore_placement walks it.
 Sweep: C11.4 every way an iteration of the restore walk can end is: restore result true, record deleted, or the not-found handler of the record read; C11.5 the walk is never cut short.
 Fifth round: C11.1 a bucket whose record names a parent is attached to it on every path, and a server carries the partition its record names (another value only when the record names none).
+Sixth round: C11.1 a partition is registered under the label it carries; C11.2 the source of a time stamp is found by reaching definitions (the read may sit in a helper or a try block of its own).
 Does NOT decide fidelity for all reachable stored states.
 """
 
